@@ -386,10 +386,17 @@ func evaluateX(im image, cfg drv.Cfg, withJournal, light bool) *outcome {
 		o.Views = append(o.Views, fmt.Sprintf("Close after recovery failed: %v %s", err, p))
 		return o
 	}
+	cont := ""
+	if walkErr == "" && len(o.Views) == 0 {
+		cont = continueAfterRecovery(dir, cfg, ro, o.Walk, n)
+	}
 	if light {
 		// C06, one step further: what is acknowledged after the recovery must survive the next
 		// recovery as well (no further loss: everything below was fsynced by Sync and Close)
 		if walkErr == "" {
+			o.Durable = cont
+		}
+		if walkErr == "" && o.Durable == "" {
 			p := safely(func() {
 				ao := cfg.Options()
 				ao.Rollover = 1 << 20
@@ -525,6 +532,9 @@ func evaluateX(im image, cfg drv.Cfg, withJournal, light bool) *outcome {
 	if p != "" {
 		o.Append = "panic while appending after recovery: " + p
 	}
+	if o.Append == "" {
+		o.Append = cont
+	}
 	if o.Append != "" || walkErr != "" || len(o.Views) > 0 {
 		return o // already reported: the views of this image disagree or it cannot be appended to
 	}
@@ -633,6 +643,92 @@ func evaluateX(im image, cfg drv.Cfg, withJournal, light bool) *outcome {
 		o.Append = "panic in Open(Recover + EagerVersionMigrate): " + p
 	}
 	return o
+}
+
+// continueAfterRecovery: the life of the log goes on after a recovery. On a copy of the
+// recovered, closed directory the log is opened with the family's own (small) rollover,
+// three single messages are published - the first may still land in the recovered head,
+// the later ones seal it -, Sync, Close, Open(Recover) once more (which only looks at the
+// new head) and a cursor walk: everything the recovery showed plus the three messages must
+// be there. Nothing is lost in between (Sync and Close), so this holds under C05 and C06
+// alike. What it reaches: a recovered head that reads fine but is left in a state
+// (index file, temporaries) that only hurts once it is no longer the newest segment.
+func continueAfterRecovery(src string, cfg drv.Cfg, ro klevdb.Options, walk []model.Msg, n int64) (problem string) {
+	dir := src + ".cont"
+	_ = os.RemoveAll(dir)
+	if err := drv.CopyDir(src, dir); err != nil {
+		panic(err)
+	}
+	defer os.RemoveAll(dir)
+	p := safely(func() {
+		lg, err := klevdb.Open(dir, cfg.Options())
+		if err != nil {
+			problem = "Open after recovery failed: " + err.Error()
+			return
+		}
+		for i := 0; i < 3; i++ {
+			msg := klevdb.Message{Time: time.UnixMicro(drv.BaseT + 600 + int64(i)).UTC(), Key: []byte("a"), Value: []byte(fmt.Sprintf("cont%d", i))}
+			if next, err := lg.Publish([]klevdb.Message{msg}); err != nil || next != n+int64(i)+1 {
+				problem = fmt.Sprintf("Publish %d after recovery = (%d, %v), want %d", i, next, err, n+int64(i)+1)
+				break
+			}
+		}
+		if w, err := lg.Sync(); problem == "" && (err != nil || w != n+3) {
+			problem = fmt.Sprintf("Sync after recovery and three publishes = (%d, %v), want %d", w, err, n+3)
+		}
+		if err := lg.Close(); err != nil && problem == "" {
+			problem = "Close after recovery and three publishes failed: " + err.Error()
+		}
+		if problem != "" {
+			return
+		}
+		lg, err = klevdb.Open(dir, ro)
+		if err != nil {
+			problem = "Open(Recover) after recovery, three publishes (rollover), Sync and Close failed: " + err.Error()
+			return
+		}
+		defer lg.Close()
+		var again []model.Msg
+		off := klevdb.OffsetOldest
+		for i := 0; i < 100; i++ {
+			next, msgs, err := safeConsume(lg, off)
+			if err != nil {
+				problem = fmt.Sprintf("after recovery, three publishes (rollover), Sync, Close and reopen: Consume(%d) failed: %v", off, err)
+				return
+			}
+			for _, m := range msgs {
+				again = append(again, model.Msg{Off: m.Offset, T: m.Time.UnixMicro(), Key: m.Key, Val: m.Value})
+			}
+			if len(msgs) == 0 {
+				break
+			}
+			off = next
+		}
+		if len(again) != len(walk)+3 {
+			problem = fmt.Sprintf("after recovery, three publishes (rollover), Sync, Close and reopen the log shows offsets %v, want %v plus %d..%d", offs(again), offs(walk), n, n+2)
+			return
+		}
+		for i := range walk {
+			if !again[i].Same(walk[i]) {
+				problem = fmt.Sprintf("after recovery, three publishes (rollover), Sync, Close and reopen message %d of the recovered log changed", walk[i].Off)
+				return
+			}
+		}
+		for i := 0; i < 3; i++ {
+			m := again[len(walk)+i]
+			if m.Off != n+int64(i) || string(m.Val) != fmt.Sprintf("cont%d", i) {
+				problem = fmt.Sprintf("after recovery, three publishes (rollover), Sync, Close and reopen offset %d holds %q", m.Off, m.Val)
+				return
+			}
+		}
+		if n2, err := lg.NextOffset(); err != nil || n2 != n+3 {
+			problem = fmt.Sprintf("after recovery, three publishes (rollover), Sync, Close and reopen NextOffset = (%d, %v), want %d", n2, err, n+3)
+		}
+	})
+	if p != "" {
+		problem = "panic while continuing after recovery: " + p
+	}
+	return problem
 }
 
 func safeConsume(l klevdb.Log, off int64) (next int64, msgs []klevdb.Message, err error) {
